@@ -2,6 +2,10 @@
    Usage: drv_tcp [cov]   - with `cov`, a final line `COV tag:count ...` reports how often each
    branch tag of tcp_process / tcp_dispatch / iface_tcp_ingress was taken. *)
 let local_addr = z_of_int 0x0A000001
+(* the interface owns a second address; the model's context has ONE address slot (cx_addr, read by
+   dispatch's has_ip_addr check and by connect's source-address selection): it is filled with the
+   socket's local address when the interface owns that address, else with the first address *)
+let local_addr2 = z_of_int 0x0A000003
 let peer_addr = z_of_int 0x0A000002
 let m32 = 1 lsl 32
 
@@ -47,8 +51,8 @@ let tx_line ((ip, r) : packet) : string =
   let sack = if emitted_ranges = [] then "-" else
       String.concat ";" (List.map (fun (l, rr) -> Printf.sprintf "%s-%s" (sz l) (sz rr)) emitted_ranges) in
   let ws = match r.r_window_scale with None -> "-" | Some v -> string_of_int (min 14 (int_of_z v)) in
-  Printf.sprintf "tx sp=%s dp=%s seq=%s ack=%s fl=%s win=%s len=%d mss=%s ws=%s sackp=%d sack=%s ts=%s hl=%s ph=%08x"
-    (sz r.r_src_port) (sz r.r_dst_port) (sz r.r_seq_number) (ostr sz r.r_ack_number) fl (sz r.r_window_len)
+  Printf.sprintf "tx sa=%d sp=%s dp=%s seq=%s ack=%s fl=%s win=%s len=%d mss=%s ws=%s sackp=%d sack=%s ts=%s hl=%s ph=%08x"
+    (int_of_z ip.ip_src land 255) (sz r.r_src_port) (sz r.r_dst_port) (sz r.r_seq_number) (ostr sz r.r_ack_number) fl (sz r.r_window_len)
     (List.length r.r_payload) (ostr sz r.r_max_seg_size) ws (if r.r_sack_permitted then 1 else 0) sack
     (ostr (fun (a, b) -> Printf.sprintf "%s:%s" (sz a) (sz b)) r.r_timestamp)
     (sz ip.ip_hop_limit) (fnv r.r_payload)
@@ -76,7 +80,11 @@ let () =
     let dead = ref false in
     let sock = ref (match tcp_new (store (geti "rx" "64")) (store (geti "tx" "64")) cc ts with
       | Ok s -> s | _ -> dead := true; Obj.magic 0) in
-    let ctx () = { cx_now = z_of_int (!now_ms * 1000); cx_ip_mtu = mtu; cx_addr = local_addr;
+    let iface_addr () = match (!sock).s_tuple with
+      | Some t when t.tu_local_addr = local_addr2 -> local_addr2
+      | _ -> local_addr in
+    let connecting = ref false in   (* connect: source-address selection picks the first address *)
+    let ctx () = { cx_now = z_of_int (!now_ms * 1000); cx_ip_mtu = mtu; cx_addr = (if !dead || !connecting then local_addr else iface_addr ());
                    cx_tsval = z_of_int ((((!now_ms + 1000) mod m32) + m32) mod m32);
                    cx_isn = (match !isns with x :: _ -> x | [] -> Z0) } in
     let pop_isn () = match !isns with _ :: r -> isns := r | [] -> () in
@@ -101,7 +109,7 @@ let () =
           | XBytesSlice (l, sl) -> Printf.sprintf "%s sl=%s" (ret_bytes l) (sz sl) in
         (match toks with
          | "listen" :: port :: rest ->
-             let addr = if kv rest "a" = Some "1" then Some local_addr else None in
+             let addr = match kv rest "a" with Some "1" -> Some local_addr | Some "3" -> Some local_addr2 | _ -> None in
              Printf.printf "ret %s\n" (ret_of (api (EvListen { le_addr = addr; le_port = zs port })))
          | "connect" :: rest ->
              let rp = z_of_int (dflt 0 (opt_i (kv rest "rp"))) and lp = z_of_int (dflt 0 (opt_i (kv rest "lp"))) in
@@ -114,7 +122,10 @@ let () =
                | Some x -> failwith ("bad la " ^ x) in
              if v6 && la = None && ra <> Z0 && int_of_z rp <> 0 && int_of_z lp <> 0 then
                failwith "connect to an IPv6 peer without a local address is outside the model";
-             let o = apix (XConnectAf (v6, ra, rp, { le_addr = la; le_port = lp })) in
+             connecting := true;
+             let o = (try apix (XConnectAf (v6, ra, rp, { le_addr = la; le_port = lp }))
+                      with e -> connecting := false; raise e) in
+             connecting := false;
              if o = XOut OUnit then pop_isn ();
              Printf.printf "ret %s\n" (retx_of o)
          | ["close"] -> Printf.printf "ret %s\n" (ret_of (api EvClose))
@@ -177,7 +188,8 @@ let () =
                             r_sack_ranges = [None; None; None];
                             r_timestamp = tsopt;
                             r_payload = payload } in
-                  let ip = { ip_src = peer_addr; ip_dst = local_addr; ip_hop_limit = z_of_int 64;
+                  let ip = { ip_src = peer_addr; ip_dst = (if kv rest "da" = Some "3" then local_addr2 else local_addr);
+                             ip_hop_limit = z_of_int 64;
                              ip_payload_len = Z.add (repr_header_len r) (z_of_int len) } in
                   let was_listen = (!sock).s_state = Listen in
                   (match api (EvSegment (ip, r)) with
